@@ -35,6 +35,7 @@ type State struct {
 	outDepth   int       // number of nested function calls currently capturing Out.
 	LogOut     io.Writer
 	macroState *object.Environment
+	macroDepth int // nesting of macro calls inside macro templates being expanded.
 	env        *object.Environment
 	rootEnv    *object.Environment // same as ancestor of env but used for reset in panic recovery.
 	cache      Cache
